@@ -4,5 +4,6 @@ CONSTANTS
   P = 2
   MaxBig = 0
   SplitLog = FALSE
+  LateWrite = FALSE
 INVARIANTS NoAlias FreeDisjoint ContentOK PropAcceptsIdeal Clean Export
 CHECK_DEADLOCK FALSE
